@@ -606,6 +606,8 @@ def bounded(rep, tier):
 
 
 def check(rep, tier):
+    from vlib import statecensus
+    statecensus.obligations(rep, 'C16', 'parser')
     rep.dropped = 'lexer actions extracted by vlib/codec.py; tokens_to_string loop body and parser actions read with ast.parse (decorators give the rules)'
     rep.assume('tokenizer contract: tok.index strictly increasing with index[i+1] >= index[i] + len(raw[i]); lineno non-decreasing; tokens on different lines are '
                'separated by at least one character (the newline)', 'sly: p._slice are the stack symbols of the right-hand side, p.<name> their values',
